@@ -388,8 +388,7 @@ def _class_cases(run, te, cd, plan, rng, ops_left):
 
 def shrink(plan, still_fails, budget):
     from .. import core
-    env = core._ENV
-    res = core.run_one(__import__("sim.checks.c15_modes", fromlist=["x"]), plan, env)
+    res = core.probe(plan)
     if res.violation is None or "case" not in res.violation:
         return plan
     case = res.violation["case"]
